@@ -16,6 +16,7 @@ import (
 //	repo <path> <template> <version> [bare]
 //	setup [flags…] <root>…            run `sync -f` (not a tested round)
 //	move <from> <to> | delete <path> | update <path> | weburl <path> <url>
+//	bystander <file> (a non-shard file in the index directory) | breakhead <path>
 //	renameshard <file> <newfile> | deleteshard <file> | foreign <name> <source|-> <ver|-> <prefix|->
 //	sync <root>…                      tested round: preview, then -f
 //	remove <selector>…                tested round
@@ -78,6 +79,11 @@ func RunScript(base string, tmpls []*Template, t *Tool, lines []string, withPrev
 			in := w.Insts[abs(f[1])]
 			in.WebURL = f[2]
 			w.writeWebURL(in)
+		case "bystander":
+			must(os.MkdirAll(w.Index, 0o755))
+			must(os.WriteFile(filepath.Join(w.Index, f[1]), []byte("partial shard"), 0o644))
+		case "breakhead":
+			w.breakHead(w.Insts[abs(f[1])])
 		case "renameshard":
 			must(os.Rename(filepath.Join(w.Index, f[1]), filepath.Join(w.Index, f[2])))
 		case "deleteshard":
@@ -102,7 +108,7 @@ func RunScript(base string, tmpls []*Template, t *Tool, lines []string, withPrev
 func isNumber(s string) bool { _, err := strconv.Atoi(s); return err == nil }
 
 func (w *World) scriptRound(t *Tool, kind string, tail []string, abs func(string) string, withPreview bool) *Round {
-	rd := &Round{World: w, Tool: t, Kind: kind, RefHash: DefaultOptionsHash()}
+	rd := &Round{World: w, Tool: t, Kind: kind, RefHash: DefaultOptionsHash(), Branch: "HEAD"}
 	var args []string
 	if kind == "remove" {
 		args = append(args, "remove")
@@ -117,6 +123,7 @@ func (w *World) scriptRound(t *Tool, kind string, tail []string, abs func(string
 	}
 	args = append(args, "-index", w.Index)
 	rd.Before, rd.BeforeOK = Inventory(w.Index)
+	rd.Bystand = w.Bystanders()
 	rd.SnapBefore = Snap(w.Index)
 	if withPreview {
 		rd.Preview = run(t, append(append([]string{}, args...), tail...))
